@@ -25,6 +25,7 @@ import SJ.Drv.C19b
 import SJ.Drv.Readers
 import SJ.Drv.C19Seq
 import SJ.Drv.C10Raw
+import SJ.Drv.C20Any
 /-!
 `sjdriver` — reads case lines `op args… => impl-observation` on stdin, runs the Lean model and the
 executable specification on each, prints
@@ -63,6 +64,7 @@ def allHandlers : List (String × Handler) :=
     Readers.handlers,
     C19Seq.handlers,
     C10Raw.handlers,
+    C20Any.handlers,
   ]
 
 def findHandler (op : String) : Option Handler := (allHandlers.find? (·.1 == op)).map (·.2)
